@@ -6,6 +6,10 @@ from . import h_slot as hs
 # one lattice tick: a minute (default), a third / quarter of a second (sub-second lags), 25 h (lags over a day)
 TICKS = st.sampled_from([None, None, None, 333333, 250000, 90000000000])
 
+# date of tick 0: 2000-01-01 (default), or a run across the Unix epoch, through the end of February 1900 (no leap day),
+# through 29 Feb 2400, across the 32-bit time_t limit (2038-01-19 03:14:07)
+EPOCHS = st.sampled_from([None, None, None, None, None, [1969, 12, 31, 23, 58], [1900, 2, 28, 23, 50], [2400, 2, 28, 23, 0], [2038, 1, 19, 3, 10]])
+
 ALL_KINDS = ["scale", "cb", "next", "prev", "lin", "step", "avg", "sum", "dfix", "dpull", "dpush"]
 
 
@@ -176,6 +180,7 @@ def dag_spec(draw, max_models=5, kinds=None, with_thru=True, offsets=True, max_c
         "end": end if end is not None else draw(st.integers(5, 40)),
         "excluded": excl,
         "tick_us": draw(TICKS),
+        "t0": draw(EPOCHS),
     }
 
 
@@ -214,7 +219,7 @@ def chain_spec(draw, min_n=6, max_n=12, kinds=("scale", "cb", "next", "prev", "l
     else:
         order = list(draw(st.permutations(allnames)))
     return {"comps": comps, "links": [list(l) for l in draw(st.permutations(links))], "order": order,
-            "end": draw(st.integers(4, 16)), "excluded": excl + [f"info:long-chain-{mode}"], "tick_us": draw(TICKS)}
+            "end": draw(st.integers(4, 16)), "excluded": excl + [f"info:long-chain-{mode}"], "tick_us": draw(TICKS), "t0": draw(EPOCHS)}
 
 
 RING_MODES = ["none", "suff", "suff_split", "suff_multi", "dpush", "partial"]
@@ -324,4 +329,5 @@ def ring_spec(draw, modes=None, chords=True, thru=True, max_n=5):
         "extra": extra,
         "excluded": ["info:staggered-starts"] if stag and len(set(starts.values())) > 1 else [],
         "tick_us": draw(TICKS),
+        "t0": draw(EPOCHS),
     }
